@@ -52,12 +52,21 @@ func runC13(p *Prog, r *Report) {
 	ruleCacheOwned(p, r, "harfbuzz", "Buffer", "newShapePlanCached", "Buffer", "planCache", "shapePlan", "init", 1)
 	ruleInv(p, r, invFaceExtents())
 	r.Explain = append(r.Explain, "R-STATE: with P-FX (per-function exposed-read / must-write sets over struct fields, fixpoint over the VTA call graph), every field of the state-holding types of each reusable object that an entry method may read before writing it is classified with a reason; continuation methods may also read what the required initialiser writes on all its paths.")
+	r.Explain = append(r.Explain, "R-STALE: storage kept in a slice-typed field is re-extended past its current length in place (x.f = x.f[:n] after consulting cap(x.f)) only where the exposed elements are overwritten whole by copy() or cleared, or for the fields listed with the reason confirmed by reading; everywhere else growth goes through append or make, which hand out zeroed elements, so a reused object does not see the elements of its previous use.")
+	ruleStale(p, r, staleAllowed, 4)
 	fx := NewFX(p)
 	fx.Run()
 	r.Count("fields_tracked", len(fx.fields))
 	for _, c := range stateConfigs() {
 		ruleState(p, r, fx, c)
 	}
+}
+
+// staleAllowed: the fields whose kept storage is re-extended in place, each confirmed by reading.
+var staleAllowed = map[string]string{
+	"Buffer.Pos":              "positions: clearPositions/resizePositions precede positionDefault and positionStartGPOS, which assign XAdvance, YAdvance, XOffset, YOffset and attachChain of every glyph (attachType is only read when attachChain is set)",
+	"aatMap.chainFlags":       "the aatMap is a local of the AAT layout compilation, rebuilt for every plan: accumulation across the ranges of one compilation is the intent",
+	"HarfbuzzShaper.features": "every element up to the new length is assigned a whole harfbuzz.Feature by the loop that follows",
 }
 
 func stateConfigs() []stateCfg {
@@ -121,6 +130,9 @@ func runC14(p *Prog, r *Report) {
 
 func controlsC13(cp *Prog, r *Report) {
 	controlsState(cp, r)
+	expectControl(r, "R-STALE", func(cr *Report) {
+		ruleStale(cp, cr, map[string]string{"gbuf.pos": "listed", "Buf.Pos": "listed (control of another rule)"}, 3)
+	}, "gbuf.info/(*reuse.gbuf).addBad")
 	expectControl(r, "R-KEY/fields", func(cr *Report) {
 		ruleKeyFields(cp, cr, keyFieldsCfg{pkg: "cache", keyType: "planGood", initRecv: "planGood", initFn: "init", eqRecv: "planGood", eqFn: "equal", lookupRecv: "buf", lookup: "planGoodCached", cacheRecv: "buf", cacheFld: "good"})
 		ruleKeyFields(cp, cr, keyFieldsCfg{pkg: "cache", keyType: "planBad", initRecv: "planBad", initFn: "init", eqRecv: "planBad", eqFn: "equal", lookupRecv: "buf", lookup: "planBadCached", cacheRecv: "buf", cacheFld: "bad"})
